@@ -10,12 +10,25 @@
 (* and validation continues, so one bad line does not hide the rest.       *)
 (* Acceptance: POSTCONDITION Accepted (all lines consumed).                *)
 (***************************************************************************)
-EXTENDS JsonPos, Json, IOUtils, TLC
+EXTENDS BoardImpl, Json, IOUtils, TLC
 
 Recs == ndJsonDeserialize(IOEnv.TRACE)
 Prop == IOEnv.PROP
 
-VARIABLE l          \* index of the next line to consume
+VARIABLES l,        \* index of the next line to consume
+          live,     \* model board (BoardImpl) of the stand-alone Board session, or <<>>
+          stk,      \* its undo stack: <<[m, u, before (model board), obs (logged state before the make)]>>
+          obs,      \* the last logged state [pos, der] of the session
+          seen,     \* history variable of the session: Key(position) -> logged hash
+          dead      \* TRUE after the session diverged from the model (skipped until the next reset)
+
+\* JSON conversions (JSON arrays are 1-based sequences)
+PosOfJson(j) == [cells |-> [s \in Sq |-> j.cells[s + 1]], side |-> j.side,
+                 castling |-> j.castling, ep |-> j.ep, hm |-> j.hm, fm |-> j.fm]
+MoveOfJson(a) == <<a[1], a[2], a[3], a[4]>>
+SeqToSet(q) == {q[i] : i \in 1..Len(q)}
+MovesOfJson(q) == {MoveOfJson(q[i]) : i \in 1..Len(q)}
+NoDup(q) == Cardinality(SeqToSet(q)) = Len(q)
 
 Has(e, f) == f \in DOMAIN e
 FailedOf(checks) == {c[1] : c \in {c \in checks : ~c[2]}}
@@ -106,20 +119,116 @@ QChecks(e) ==
     [] Prop = "C07" -> C07Checks(e)
     [] Prop = "C16" -> C16Checks(e)
 
+(***************************************************************************)
+(* Stand-alone Board sessions: reset / make / unmake (C04, C05).           *)
+(***************************************************************************)
+\* the logged derived state agrees with a model board (all 16 occupancy sets)
+SetsMatch(der, bd) ==
+  /\ SeqToSet(der.white) = bd.white /\ SeqToSet(der.black) = bd.black /\ SeqToSet(der.all) = bd.all
+  /\ \A c \in 0..12 : SeqToSet(der.pieces[c + 1]) = bd.pieces[c]
+  /\ NoDup(der.white) /\ NoDup(der.black) /\ NoDup(der.all)
+
+\* C05 on one logged state: stored hash = from-scratch hash, sets = sets rebuilt from the squares BY THE SPEC,
+\* and the session history maps each position key to one hash whatever the path and the counters
+StateChecksC05(e) ==
+  LET pos == PosOfJson(e.pos)  k == Key(pos) IN
+  {<<"hash_eq_scratch", e.der.hash = e.der.scratch>>,
+   <<"sets_eq_scratch", SetsMatch(e.der, Scratch(pos))>>,
+   <<"same_key_same_hash", k \in DOMAIN seen => seen[k] = e.der.hash>>,
+   <<"hash_injective_in_session", \A k2 \in DOMAIN seen : (seen[k2] = e.der.hash) => k2 = k>>}
+
+SessionChecks(e) ==
+  LET pos == PosOfJson(e.pos) IN
+  CASE e.ev = "reset" ->
+         (IF Prop = "C05" THEN StateChecksC05(e) ELSE {})
+         \cup {<<"input_valid", IsValid(pos)>>}
+    [] e.ev = "make" ->
+         LET m == MoveOfJson(e.m)  mk == DoMake(live, m) IN
+         {<<"make_precondition", m = <<0, 0, 0, 0>> \/ m \in PseudoLegal(live.r)>>,
+          <<"pos_eq_model", pos = mk.board.r>>,
+          <<"sets_eq_model", SetsMatch(e.der, mk.board)>>,
+          <<"exposed_flag", e.exposed = IsAttacked(pos.cells, KingSq(pos.cells, Other(pos.side)), pos.side)>>}
+         \cup (IF Prop = "C05" THEN StateChecksC05(e) ELSE {})
+    [] e.ev = "unmake" ->
+         LET t == stk[Len(stk)]  um == DoUnmake(live, t.m, t.u) IN
+         {<<"unmake_move_matches", MoveOfJson(e.m) = t.m>>,
+          <<"pos_eq_model", pos = um.r>>,
+          <<"sets_eq_model", SetsMatch(e.der, um)>>,
+          <<"model_restored", um = t.before>>}
+         \cup (IF Prop = "C04"
+               THEN {<<"restores_position", e.pos = t.obs.pos>>,
+                     <<"restores_hash", e.der.hash = t.obs.der.hash>>,
+                     <<"restores_occupancy_sets", SetsMatch(e.der, Scratch(PosOfJson(t.obs.pos)))
+                                                  /\ SetsMatch(t.obs.der, Scratch(PosOfJson(t.obs.pos)))>>}
+               ELSE {})
+         \cup (IF Prop = "C05" THEN StateChecksC05(e) ELSE {})
+
+FeatureDiff(p, q) ==
+    Cardinality({s \in Sq : p.cells[s] # q.cells[s]})
+  + (IF p.side # q.side THEN 1 ELSE 0)
+  + Cardinality({i \in 0..3 : ((p.castling \div Pow2(i)) % 2) # ((q.castling \div Pow2(i)) % 2)})
+  + (IF p.ep # q.ep THEN 1 ELSE 0)
+
+HashPairChecks(e) ==
+  LET p == PosOfJson(e.a.pos)  q == PosOfJson(e.b.pos)  n == FeatureDiff(p, q)
+      bothStored == e.a.stored # "" /\ e.b.stored # "" IN
+  {<<"same_key_same_hash", n = 0 => (e.a.scratch = e.b.scratch /\ (bothStored => e.a.stored = e.b.stored))>>,
+   <<"one_feature_different_hash", n = 1 => (e.a.scratch # e.b.scratch /\ (bothStored => e.a.stored # e.b.stored))>>,
+   <<"pair_is_relevant", n \in {0, 1}>>,
+   <<"stored_eq_scratch", (e.a.stored # "" => e.a.stored = e.a.scratch) /\ (e.b.stored # "" => e.b.stored = e.b.scratch)>>}
+
+IsSessionEvent(e) == e.ev \in {"reset", "make", "unmake"}
+
 EventChecks(e) ==
   CASE e.ev = "q" -> QChecks(e)
+    [] IsSessionEvent(e) -> SessionChecks(e)
+    [] e.ev = "hashpair" -> HashPairChecks(e)
     [] OTHER -> {<<"unknown_event", FALSE>>}
 
-Init == l = 1
+Init == l = 1 /\ live = <<>> /\ stk = <<>> /\ obs = <<>> /\ seen = <<>> /\ dead = FALSE
+
+Report(failed) ==
+  IF failed = {} THEN TRUE
+  ELSE PrintT("NONCONF " \o ToString(l) \o " " \o ToString(failed))  \* one atomic string: never line-wrapped
+
+\* a pure event: no model state changes
+StepPure(e) ==
+  /\ Report(FailedOf(EventChecks(e)))
+  /\ UNCHANGED <<live, stk, obs, seen, dead>>
+
+StepSession(e) ==
+  LET pos == PosOfJson(e.pos)
+      ob == [pos |-> e.pos, der |-> e.der]
+      addSeen == IF Key(pos) \in DOMAIN seen THEN seen ELSE seen @@ (Key(pos) :> e.der.hash)
+  IN
+  IF e.ev = "reset" THEN
+       /\ Report(FailedOf(SessionChecks(e)))
+       /\ live' = Scratch(pos) /\ stk' = <<>> /\ obs' = ob
+       /\ seen' = (Key(pos) :> e.der.hash) /\ dead' = FALSE
+  ELSE IF dead \/ (e.ev = "unmake" /\ stk = <<>>) THEN
+       \* diverged earlier in this session (already reported): skip until the next reset
+       /\ UNCHANGED <<live, stk, obs, seen, dead>>
+  ELSE LET failed == FailedOf(SessionChecks(e)) IN
+       /\ Report(failed)
+       /\ dead' = ("pos_eq_model" \in failed \/ "unmake_move_matches" \in failed)
+       /\ obs' = ob
+       /\ seen' = addSeen
+       /\ IF e.ev = "make"
+          THEN LET m == MoveOfJson(e.m)  mk == DoMake(live, m) IN
+               /\ live' = mk.board
+               /\ stk' = Append(stk, [m |-> m, u |-> mk.undo, before |-> live, obs |-> obs])
+          ELSE LET t == stk[Len(stk)] IN
+               /\ live' = DoUnmake(live, t.m, t.u)
+               /\ stk' = SubSeq(stk, 1, Len(stk) - 1)
 
 Next ==
   /\ l <= Len(Recs)
-  /\ LET failed == FailedOf(EventChecks(Recs[l])) IN
-       IF failed = {} THEN TRUE
-       ELSE PrintT("NONCONF " \o ToString(l) \o " " \o ToString(failed))  \* one atomic string: never line-wrapped
   /\ l' = l + 1
+  /\ LET e == Recs[l] IN
+       IF IsSessionEvent(e) THEN StepSession(e) ELSE StepPure(e)
 
-Spec == Init /\ [][Next]_l
+vars == <<l, live, stk, obs, seen, dead>>
+Spec == Init /\ [][Next]_vars
 
 Accepted ==
   LET d == TLCGet("stats").diameter IN
